@@ -95,6 +95,7 @@ class ClassInfo:
         self.fields = []          # [(attribute, INT | BYTES | BOOL)]
         self.init = {}            # attribute -> ast of the initial value
         self.structs = {}         # attribute -> format string
+        self.tuple_attrs = {}     # attribute -> (constant tuple of names, source text), assigned only in __init__
         self.not_carried = []     # [(attribute, why)]
         self.notes = []
         self._init_fields()
@@ -240,6 +241,10 @@ class ClassInfo:
                     self.err(st, "struct.Struct(%s): the format is not a constant string" % ast.unparse(val.args[0]))
                 self.structs[nm] = f
                 continue
+            tv = self._const_eval(val)
+            if isinstance(tv, tuple):
+                self.tuple_attrs[nm] = (tv, ast.unparse(val))
+                continue
             ty = None
             if nm in over:
                 ty = TYPES[over[nm]]
@@ -255,10 +260,11 @@ class ClassInfo:
             self.init[nm] = val
         # every store to a Struct attribute outside __init__ makes it a variable, not a constant format
         for n in ast.walk(self.node):
-            if isinstance(n, ast.Attribute) and isinstance(n.ctx, (ast.Store, ast.Del)) and n.attr in self.structs:
+            if isinstance(n, ast.Attribute) and isinstance(n.ctx, (ast.Store, ast.Del)) \
+               and (n.attr in self.structs or n.attr in self.tuple_attrs):
                 inside = any(n is x for x in ast.walk(init))
                 if not inside:
-                    self.err(n, "the Struct attribute %s is assigned outside __init__" % n.attr)
+                    self.err(n, "the constant attribute %s is assigned outside __init__" % n.attr)
         for d in self.node.body:
             if isinstance(d, ast.FunctionDef) and d.decorator_list and d.name in dict(self.fields):
                 self.err(d, "attribute %s is also a decorated method (property?)" % d.name)
@@ -557,12 +563,32 @@ class MFn(tr.Fn):
             if op == "unpack":
                 return self.hoist(e, "Py.structUnpackI %s %s" % (ftext, b.s), INTS, n=n, elo=0)
             off = V("0", INT, 0, 0)
+            if len(args) == 2 and isinstance(args[1], ast.UnaryOp) and isinstance(args[1].op, ast.USub) \
+               and isinstance(args[1].operand, ast.Constant) and isinstance(args[1].operand.value, int) \
+               and not isinstance(args[1].operand.value, bool) and args[1].operand.value > 0:
+                # a negative constant offset counts from the end; struct.error when it reaches before the start
+                return self.hoist(e, "Py.structUnpackFromEndI %s %s %d" % (ftext, b.s, args[1].operand.value), INTS, n=n, elo=0)
             if len(args) == 2:
                 off = self.expr(args[1], env)
             if off.t != INT or off.lo is None or off.lo < 0:
                 self.err(e, "struct.unpack_from: cannot show the offset is >= 0 (a negative offset counts from the end)")
             return self.hoist(e, "Py.structUnpackFromI %s %s (Int.toNat %s)" % (ftext, b.s, off.s), INTS, n=n, elo=0)
         self.err(e, "Struct.%s is not in the subset" % op)
+
+    def subscript(self, e, env):
+        sl = e.slice
+        if isinstance(sl, ast.Slice) and sl.step is None and isinstance(sl.upper, ast.UnaryOp) and isinstance(sl.upper.op, ast.USub) \
+           and isinstance(sl.upper.operand, ast.Constant) and isinstance(sl.upper.operand.value, int) \
+           and not isinstance(sl.upper.operand.value, bool) and sl.upper.operand.value > 0:
+            # b[lo:-K]: the upper bound counts from the end, clamped at 0
+            seq = self.expr(e.value, env)
+            if seq.t not in (BYTES, tr.BYTEARRAY, INTS):
+                self.err(e, "subscript of %s" % seq.t)
+            lo = self.expr(sl.lower, env) if sl.lower is not None else V("0", INT, 0, 0)
+            if lo.t != INT or lo.lo is None or lo.lo < 0:
+                self.err(e, "slice bound %s: cannot show it is >= 0 (negative bounds count from the end)" % lo.s)
+            return V("(Py.sliceEndI %s %s %d)" % (seq.s, lo.s, sl.upper.operand.value), seq.t, elo=seq.elo, ehi=seq.ehi)
+        return super().subscript(e, env)
 
     # ---- statements
     def target_key(self, t, env):
@@ -619,6 +645,12 @@ class MFn(tr.Fn):
         if not isinstance(s, ast.For) or s.orelse or not isinstance(s.target, ast.Name):
             return None
         names = self.class_const(s.iter)
+        if isinstance(s.iter, ast.Attribute) and isinstance(s.iter.value, ast.Name) and s.iter.value.id == self.selfname \
+           and s.iter.attr in self.cls.tuple_attrs:
+            names = self.cls.tuple_attrs[s.iter.attr][0]
+            self.notes.append("self.%s is %s = %r: assigned only in %s.__init__ (an object of exactly this class; a subclass "
+                              "that re-assigns it in its own __init__ is a different class)" % (
+                                  s.iter.attr, self.cls.tuple_attrs[s.iter.attr][1], names, self.cls.name))
         if isinstance(s.iter, (ast.Tuple, ast.List)) and s.iter.elts \
            and all(isinstance(x, ast.Constant) and isinstance(x.value, str) for x in s.iter.elts):
             names = tuple(x.value for x in s.iter.elts)
@@ -878,6 +910,8 @@ def translate_class(spec):
         doc += "    not carried: %s (%s)\n" % (f, why)
     for f, fs in cls.structs.items():
         doc += "    not carried: %s = struct.Struct(%r), a constant format (assigned only in __init__)\n" % (f, fs)
+    for f, (tv, txt) in cls.tuple_attrs.items():
+        doc += "    not carried: %s = %s = %r, a constant tuple of attribute names (assigned only in __init__)\n" % (f, txt, tv)
     doc += "-/"
     lines.append(doc)
     lines.append("structure Obj where")
